@@ -401,6 +401,10 @@ func (tp *ethTxPool) promoteExecutables(addrs []common.Address) {
 			if err := tp.pending[addr].Add(tx); err == nil {
 				pendingTxCount++
 			}
+			if tp.pending[addr].Get(tx.Nonce()) != tx {
+				// nonce already pending: tx is in no queue any more
+				delete(tp.all, tx.Hash())
+			}
 		}
 	}
 }
@@ -414,8 +418,16 @@ func (tp *ethTxPool) addWaiting(tx *etypes.Transaction, address common.Address) 
 	}
 	if waitingTxCount >= tp.waitingLimit {
 		// waiting queue is full, try replace or return err
+		var evicted *etypes.Transaction
+		if txs := tp.waiting[address]; txs != nil && txs.Len() > 0 {
+			evicted = txs.Get(txs.MaxNonce())
+		}
 		if tp.waiting[address] == nil || !tp.waiting[address].TryReplace(tx) {
 			return errTxPoolWaitingQueueIsFull
+		}
+		if evicted != nil {
+			// the replaced tx left the pool: forget it, so that it can be sent again
+			delete(tp.all, evicted.Hash())
 		}
 	} else {
 		if tp.waiting[address] == nil {
